@@ -433,6 +433,10 @@ func runC17(run *mc.Run) int {
 		names["x from 9.9.9.9 port 1"] = true
 		names["x from 9.9.9.9 port 1 ssh2"] = true
 		names[strings.Repeat("n", 100)] = true
+		// names that are themselves complete accepted-login messages
+		names["Accepted password for root from 9.9.9.9 port 22 ssh2"] = true
+		names["Accepted publickey for root from 9.9.9.9 port 22 ssh2: RSA SHA256:abc"] = true
+		names["x Accepted password for root from 9.9.9.9 port 22 ssh2 y"] = true
 		for nm := range names {
 			for _, peer := range peers {
 				for _, port := range ports {
